@@ -302,8 +302,9 @@ Qed.
    the step is not SUCCEEDED afterwards; an input that differs from its record gives FAILED and
    draining (hash deleted); an input digest that differs from the stored one gives PENDING, not
    deferred, without hash and without amended inputs (so the next dispatch runs the command);
-   otherwise try_skip_job stays CHECKING to hash the outputs and validate_dynamic_job leaves the
-   whole state exactly as it was. *)
+   otherwise try_skip_job stays CHECKING to hash the outputs and validate_dynamic_job puts the step
+   back to PENDING with the `deferred` flag that the source passes to set_state there (generated:
+   validate_unchanged_deferred; when it is False the whole state is exactly as it was). *)
 Theorem C03_checking_outcomes :
   forall (x : xworld) (t : N) (x' : xworld) (k : N) (s : bool) (sh : shash),
     do_xtry x t false = (x', XRTry k s) -> (k = 2 \/ k = 3) -> x_hash x = Some sh ->
@@ -319,7 +320,8 @@ Theorem C03_checking_outcomes :
        x_hash x' = Some sh /\
        (k = 2 -> c_state (xb x') = SS_CHECKING /\
                  x_chk x' = Some (mkChk sh (x_envc x) (canon (snapshot (xb x))))) /\
-       (k = 3 -> x' = x)).
+       (k = 3 -> c_state (xb x') = SS_PENDING /\ c_deferred (xb x') = validate_unchanged_deferred /\
+                 x_chk x' = x_chk x /\ (validate_unchanged_deferred = false -> x' = x))).
 Proof. exact checking_outcomes. Qed.
 
 (* try_skip_job after the output hashing: SUCCEEDED iff not cancelled and the stored output
@@ -342,21 +344,25 @@ Theorem C03_skip_outcomes :
 Proof. exact skip_outcomes. Qed.
 
 (* validate_dynamic_job, cancelled or not, whatever it finds: the command does not start, the step
-   ends PENDING or FAILED (never SUCCEEDED), and if the stored hash survives then NOTHING changed. *)
+   ends PENDING or FAILED (never SUCCEEDED), and if the stored hash survives and the source does not
+   set `deferred` there, then NOTHING changed. *)
 Theorem C03_validate_never_succeeds_never_runs :
   forall (x : xworld) (t : N) (cancel : bool) (x' : xworld) (s : bool),
     do_xtry x t cancel = (x', XRTry 3 s) ->
     s = false /\ c_run (xb x') = None /\ x_chk x' = None /\
     (c_state (xb x') = SS_PENDING \/ c_state (xb x') = SS_FAILED) /\
-    (has_hash x' = true -> x' = x).
+    (has_hash x' = true -> validate_unchanged_deferred = false -> x' = x).
 Proof. exact validate_never_succeeds_never_runs. Qed.
 
 (* HAZARD (not a C03 violation; reported, see design.d/C03.md and findings.d/C03-validate-loop.json):
-   the "digest unchanged" branch of validate_dynamic_job sets PENDING without `deferred`, so the
+   as long as the "digest unchanged" branch of validate_dynamic_job sets PENDING without `deferred`
+   (validate_unchanged_deferred = false: true of /repo at bae2038, see gen.golden/GenFresh.v), the
    step is exactly as dispatchable as before: every further dispatch derives the same job with the
-   same result, for ever, unless another actor changes something. *)
+   same result, for ever, unless another actor changes something.  The statement is conditional so
+   that it survives the proposed fix (set_state(PENDING, True)). *)
 Theorem C03_validate_unchanged_redispatches :
   forall (x : xworld) (t : N) (x' : xworld) (s : bool),
+    validate_unchanged_deferred = false ->
     do_xtry x t false = (x', XRTry 3 s) -> has_hash x' = true ->
     forall (n : nat) (t' : N),
       xrun (repeat (XTry t' false) n) x = x /\ do_xtry x t' false = (x, XRTry 3 false).
@@ -490,20 +496,20 @@ Example C03_example_validate_loop :
   let x := xrun [XTry 1 false; XE (EAmend [2]); XE (ERow 2 (mkF true FS_MISSING 0 false true None false));
                  XEnd 2 true false; repend] sx0 in
   x_hash x = Some (mkSH 1 [(1, 3)] [(9, 7)]) /\ c_dyn (xb x) = [2] /\
-  xstep x (XTry 3 false) = (x, XRTry 3 false) /\
-  xrun (repeat (XTry 3 false) 50) x = x.
+  snd (xstep x (XTry 3 false)) = XRTry 3 false /\ has_hash (fst (xstep x (XTry 3 false))) = true /\
+  (validate_unchanged_deferred = false ->
+     xstep x (XTry 3 false) = (x, XRTry 3 false) /\ xrun (repeat (XTry 3 false) 50) x = x).
 Proof.
   cbv zeta. split; [vm_compute; reflexivity|]. split; [vm_compute; reflexivity|].
-  assert (H : do_xtry (xrun [XTry 1 false; XE (EAmend [2]); XE (ERow 2 (mkF true FS_MISSING 0 false true None false));
-                             XEnd 2 true false; repend] sx0) 3 false
-              = (xrun [XTry 1 false; XE (EAmend [2]); XE (ERow 2 (mkF true FS_MISSING 0 false true None false));
-                       XEnd 2 true false; repend] sx0, XRTry 3 false)).
-  { match goal with |- do_xtry ?x 3 false = _ =>
-      destruct (validate_never_succeeds_never_runs x 3 false (fst (do_xtry x 3 false)) (match snd (do_xtry x 3 false) with XRTry _ s => s | _ => false end)) as [_ [_ [_ [_ Hx]]]]
-    end.
-    - vm_compute. reflexivity.
-    - rewrite <- Hx at 2; [|vm_compute; reflexivity].
-      vm_compute. reflexivity. }
-  split; [exact H|].
-  exact (proj1 (validate_unchanged_redispatches _ 3 _ false H eq_refl 50%nat 3)).
+  split; [vm_compute; reflexivity|]. split; [vm_compute; reflexivity|]. intros Hv.
+  match goal with |- xstep ?x _ = _ /\ _ =>
+    assert (Htry : do_xtry x 3 false = (fst (do_xtry x 3 false), XRTry 3 false))
+  end.
+  { match goal with |- ?a = (fst ?a, _) => rewrite (surjective_pairing a) at 1 end.
+    f_equal; try (vm_compute; reflexivity). }
+  pose proof (validate_unchanged_redispatches _ 3 _ false Hv Htry) as H.
+  assert (Hh : has_hash (fst (do_xtry (xrun [XTry 1 false; XE (EAmend [2]);
+                 XE (ERow 2 (mkF true FS_MISSING 0 false true None false)); XEnd 2 true false; repend] sx0) 3 false)) = true)
+    by (vm_compute; reflexivity).
+  destruct (H Hh 50%nat 3) as [H1 H2]. split; [exact H2|exact H1].
 Qed.
